@@ -1,7 +1,7 @@
 SPEC = {
     "id": "C16",
     "props_file": "Props/C16.v",
-    "gen": ["decodeconsts", "quoteconsts"],
+    "gen": ["decodeconsts", "quoteconsts", "miscconsts"],
     "streams": [
         # K + S for the modelled hand-written decoders: real Go function vs Verif.Decode.Cases.run_case
         {"name": "decode", "cmd": "decode",
